@@ -193,6 +193,9 @@ def check_sqlite(inp):
   table = {f'id{i}\x00'.encode() * (i % 2 + 1): {
       'x': make('float32', (i + 1, 2), 'F', False), 'y': make('int64', (i + 1,), 'C', False),
       'z': np.array([b'w'] * (i + 1), dtype=object)} for i in range(n)}
+  if n >= 1:
+    # a client without examples is a client: it is listed, has size 0 and can be fetched
+    table[b'empty'] = {'x': np.zeros((0, 2), np.float32), 'y': np.zeros((0,), np.int64), 'z': np.array([], dtype=object)}
   with tempfile.TemporaryDirectory() as d:
     path = os.path.join(d, 'f.sqlite')
     with sq.SQLiteFederatedDataBuilder(path) as b:
@@ -202,6 +205,14 @@ def check_sqlite(inp):
       return 'client ids changed'
     if dict(fd.client_sizes()) != {k: len(v['y']) for k, v in table.items()}:
       return 'sizes changed'
+    for k, v in table.items():
+      # every per-client read path, zero-example clients included
+      try:
+        sz, one = fd.client_size(k), fd.get_client(k)
+      except KeyError as e:
+        return f'client {k!r} ({len(v["y"])} examples) was written through the builder but client_size / get_client raise KeyError({e})'
+      if sz != len(v['y']) or same(v, one.raw_examples):
+        return f'client_size({k!r}) = {sz} / get_client differ from what was written ({len(v["y"])} examples)'
     for k, ds in fd.clients():
       m = same(table[k], ds.raw_examples)
       if m:
